@@ -146,6 +146,7 @@ class P:
         e = self.expression()
         if self.peek() != "EOF":
             raise Reject("tokens left over")
+        well_formed(e)
         return e
 
     def expression(self):
@@ -247,6 +248,51 @@ class P:
             self.next()
             return ("call", ("var", "I", None), (e,))
         raise Reject("cannot start an expression with " + k)
+
+
+def well_formed(ast):
+    """Context conditions of the grammar (a sentence in which some token could only be ignored is not a sentence):
+    `~` only as the top-level operator (the whole formula may be parenthesised); `variable[level]` only as the whole
+    response; inside calls no `variable[level]`, neither as argument nor as function name, and no repeated keyword."""
+    root = ast
+    while root[0] == "grp":
+        root = root[1]
+    response = None
+    if root[0] == "bin" and root[1] == "~":
+        response = root[2]
+        while response[0] == "grp" or (response[0] == "un" and response[1] == "+"):
+            response = response[1] if response[0] == "grp" else response[2]
+
+    def walk(n, in_call, is_root):
+        k = n[0]
+        if k == "bin":
+            if n[1] == "~" and not is_root:
+                raise Reject("nested ~")
+            walk(n[2], in_call, False)
+            walk(n[3], in_call, False)
+        elif k == "un":
+            walk(n[2], in_call, False)
+        elif k == "grp":
+            walk(n[1], in_call, is_root)
+        elif k == "assign":
+            walk(n[2], in_call, False)
+        elif k == "call":
+            if n[1][0] != "var":
+                raise Reject("only a (dotted) name can be called")
+            if n[1][2] is not None:
+                raise Reject("function name with a level")
+            seen = set()
+            for a in n[2]:
+                if a[0] == "assign":
+                    if a[1][1] in seen:
+                        raise Reject("keyword argument repeated")
+                    seen.add(a[1][1])
+                walk(a, True, False)
+        elif k == "var":
+            if n[2] is not None and (in_call or n is not response):
+                raise Reject("level outside the response")
+
+    walk(root, False, True)
 
 
 def parse(toks, loose=False):
